@@ -145,9 +145,23 @@ def roundtrip(flavour, gid, v, ctx, expect_validate=True):
                     return imp.import_graph_from_file_direct(graph_file=path2)
                 finally:
                     os.unlink(path2)
+            def other_extension(kind):
+                # the file is called after the other format (serialize(file_name='slice.json') writes GraphML by default);
+                # what a file holds is decided by its content
+                path3 = path + _misleading_suffix(fmt)
+                try:
+                    with open(path3, 'w', encoding='utf-8') as f:
+                        f.write(text)
+                    if kind == 'direct':
+                        return imp.import_graph_from_file_direct(graph_file=path3)
+                    imp.import_graph_from_file(graph_file=path3, graph_id=gid)
+                    return imp.cast_graph(graph_id=gid) if hasattr(imp, 'cast_graph') else None
+                finally:
+                    os.unlink(path3)
             for ename, fn in (('string-direct', lambda: imp.import_graph_from_string_direct(graph_string=text)),
                               ('file-direct', lambda: imp.import_graph_from_file_direct(graph_file=path)),
-                              ('file-direct-reused-path', reused_path)):
+                              ('file-direct-reused-path', reused_path),
+                              ('file-direct-other-extension', lambda: other_extension('direct'))):
                 n += 1
                 snap = world.snapshot_all()
                 try:
@@ -189,6 +203,10 @@ def _parse(text, fmt, drop_gid=False):
     else:
         g = nx.readwrite.node_link_graph(json.loads(text))
     return canon_nx(g, drop_graph_id=drop_gid)
+
+
+def _misleading_suffix(fmt):
+    return '.json' if fmt == GraphFormat.GRAPHML else '.graphml'
 
 
 def _diff(want, got):
@@ -322,7 +340,7 @@ class SerdesTopo(TopoModel):
                 t2.load(graph_string=text, new_graph_id='LOADED')
                 if stored('shared', 'LOADED')[0] != want[0]:
                     v.append((f'content/{fmt.name}/topology-load-new-id', f'{_diff(want[0], stored("shared", "LOADED")[0])} {ctx}'))
-                with tempfile.NamedTemporaryFile('w', suffix='.graph', encoding='utf-8') as f:
+                with tempfile.NamedTemporaryFile('w', suffix=_misleading_suffix(fmt), encoding='utf-8') as f:
                     # the file already holds an older, LONGER save of a model (saving again replaces it)
                     f.write(text + '\n' + text)
                     f.flush()
@@ -342,7 +360,7 @@ class SerdesTopo(TopoModel):
                 t4.load(graph_string=text)
                 if stored('shared', gid)[0] != want[0]:
                     v.append((f'content/{fmt.name}/topology-reload-same-object', f'after t.load(graph_string=t.serialize()): {_diff(want[0], stored("shared", gid)[0])} {ctx}'))
-                with tempfile.NamedTemporaryFile('w', suffix='.graph', encoding='utf-8') as f:
+                with tempfile.NamedTemporaryFile('w', suffix='.xml' if fmt != GraphFormat.GRAPHML else '.json', encoding='utf-8') as f:
                     f.write(text)
                     f.flush()
                     t4.load(file_name=f.name)
